@@ -516,7 +516,42 @@ func (tt *TermTable) FpBin(op Op, a, b *Term) *Term {
 	return tt.mk(op, FPSort, []*Term{a, b}, 0, "", 0, 0)
 }
 
+// fpNonNeg: t is provably a non-NaN value >= +0 (possibly +inf).
+func fpNonNeg(t *Term) bool {
+	switch t.Op {
+	case OConst:
+		f := fpOf(t)
+		return f >= 0 && !math.Signbit(f)
+	case OFpFromU:
+		return true
+	case OIte:
+		return fpNonNeg(t.Args[1]) && fpNonNeg(t.Args[2])
+	case OFpAdd:
+		return fpNonNeg(t.Args[0]) && fpNonNeg(t.Args[1])
+	}
+	return false
+}
+
+// fpNonNaN: t is provably not NaN.
+func fpNonNaN(t *Term) bool {
+	switch t.Op {
+	case OConst:
+		return !math.IsNaN(fpOf(t))
+	case OFpFromU, OFpFromS:
+		return true
+	case OIte:
+		return fpNonNaN(t.Args[1]) && fpNonNaN(t.Args[2])
+	}
+	return fpNonNeg(t)
+}
+
 func (tt *TermTable) FpCmp(op Op, a, b *Term) *Term {
+	if a == b && fpNonNaN(a) {
+		return tt.Bool(op == OFpEq || op == OFpLe)
+	}
+	if op == OFpLe && a.IsConst() && fpOf(a) == 0 && fpNonNeg(b) {
+		return tt.True
+	}
 	if a.IsConst() && b.IsConst() {
 		x, y := fpOf(a), fpOf(b)
 		switch op {
